@@ -73,10 +73,15 @@ def decode_run(ops: list[int], outs: list[int]):
 # ------------------------------------------------------------------------------------------------------------
 
 def ref_eff_cancelled(snap, c: int):
-    """Returns the nearest cancelled scope reachable from c without crossing a shield, else 0."""
+    """Returns the nearest cancelled scope reachable from c without crossing a shield, else 0.  A scope that has
+    been left (API misuse: CancelScope.__exit__ on a scope that still contains tasks) no longer connects what is inside
+    it to its former ancestors: the walk stops there (the implementation's walks do the same since the F42 fix)."""
     seen = 0
+    start = c
     while c and seen < 200:
         sc = snap["scopes"][c]
+        if c != start and not sc["active"]:
+            return 0
         if sc["cancelled"]:
             return c
         if sc["shield"]:
@@ -90,8 +95,11 @@ def ref_visible_cancelled_set(snap, c: int):
     """All cancelled scopes on the path from c upward until (and including) the first shielded scope."""
     out = []
     seen = 0
+    start = c
     while c and seen < 200:
         sc = snap["scopes"][c]
+        if c != start and not sc["active"]:
+            break                        # an exited scope cuts the chain (see ref_eff_cancelled)
         if sc["cancelled"]:
             out.append(c)
         if sc["shield"]:
@@ -670,6 +678,8 @@ class History:
             seen = 0
             while c and seen < 200:
                 sc = scopes[c]
+                if c != tk["cur"] and not sc["active"]:
+                    break                # the chain is cut by a scope that was left while tasks remained inside (misuse)
                 if sc["cancelled"]:
                     if sc["host"]:
                         self.flags.add("reach_nonempty")
